@@ -345,7 +345,7 @@ def summary_selftest(seed=5, rounds=10):
     from pysym import summaries
     real = dict(add=real_ops_mod.add, sub=real_ops_mod.sub, mul=real_ops_mod.mul, fma=real_ops_mod.fma, neg=real_ops_mod.neg, fabs=real_ops_mod.fabs, round=real_ops_mod.round)
     ctxs = [fp.IEEEContext(5, 8, fp.RM.RTP), fp.IEEEContext(5, 10), fp.IEEEContext(5, 9, fp.RM.RTZ), fp.FP32, fp.FP32.with_params(rm=fp.RM.RTN), fp.FP64, fp.MPFixedContext(-1, fp.RM.RTZ), fp.INTEGER,
-            fp.MPSFloatContext(3, -2, fp.RM.RTN), fp.MPSFloatContext(4, -3), fp.MPFloatContext(2, fp.RM.RTP), fp.MPFloatContext(1), fp.IEEEContext(3, 6, fp.RM.RNE), fp.REAL]
+            fp.MPSFloatContext(3, -2, fp.RM.RTN), fp.MPSFloatContext(4, -3), fp.FixedContext(True, -2, 12, fp.RM.RTZ, fp.OV.SATURATE), fp.FixedContext(True, 0, 16, fp.RM.RNE, fp.OV.SATURATE), fp.MPFloatContext(2, fp.RM.RTP), fp.MPFloatContext(1), fp.IEEEContext(3, 6, fp.RM.RNE), fp.REAL]
     rng = random.Random(seed)
     out = {'n': 0, 'bad': []}
     exps = (-1, -2, 0)
